@@ -574,6 +574,8 @@ void do_add(World &w, int task, const Op &op)
   int i    = (int)op.a;
   int kind = (int)w.c->knob(fmt("itype%d", i).c_str(), 0);
   bool direct = w.storage != nullptr;
+  if (!direct && w.handles[i].empty())
+    return;  // (late instrument: nobody has created it yet)
   int hidx = direct ? 0 : (int)(op.d % w.handles[i].size());
   CallAttrs attrs(op.b, (uint64_t)op.d);
   Meas m;
@@ -841,8 +843,11 @@ void body(const Case &c)
     }
     w.meter  = w.prov->GetMeter("m");
     w.meter2 = w.prov->GetMeter("m2", "2.0");
+    // knob late_instr0: instrument 0 is not created up front; every recorder task creates it
+    // itself as its first operation, so the very first registrations of one instrument race
     for (int i = 0; i < ninstr; ++i)
-      make_handle(w, i);
+      if (!(i == 0 && c.knob("late_instr0", 0)))
+        make_handle(w, i);
   }
   run_tasks(c, [&](int i, const TaskProg &t) { run_program(w, i, t); });
   // final quiescent collection per reader
@@ -1445,6 +1450,12 @@ void generate(const std::string &prop, Rng &wl, Rng &fl, Case &c)
   }
   // recorder tasks
   int nrec = (int)wl.range(1, 2);
+  bool late0 = dup && wl.chance(0.5);
+  if (late0)
+  {
+    nrec = 2;
+    c.set("late_instr0", 1);
+  }
   std::vector<int> next_digit(ninstr, 0);
   int nsets = prop == "C08" ? 1024 : 8;
   for (int t = 0; t < nrec; ++t)
@@ -1452,9 +1463,11 @@ void generate(const std::string &prop, Rng &wl, Rng &fl, Case &c)
     TaskProg p;
     p.role = R_RECORDER;
     int n  = (int)wl.range(2, vsim::tier_scale() > 1 && wl.chance(0.5) ? 32 : 20);
+    if (late0)
+      p.ops.push_back({OP_NEW_HANDLE, 0, 0, 0, 0});
     for (int j = 0; j < n; ++j)
     {
-      int i = (int)wl.below(ninstr);
+      int i = late0 && wl.chance(0.6) ? 0 : (int)wl.below(ninstr);
       if (dup && wl.chance(0.1))
       {
         p.ops.push_back({OP_NEW_HANDLE, i, 0, 0, 0});
